@@ -63,6 +63,7 @@ class VirtualFile(io.RawIOBase):
 
     def seek(self, pos, whence=0):
         self._note("seek")
+        self._check_open()
         if whence == 0:
             if pos < 0:
                 raise ValueError("negative seek")
@@ -109,6 +110,7 @@ class VirtualFile(io.RawIOBase):
 
     def read(self, n=-1):
         self._note("read")
+        self._check_open()
         if n is None or n < 0:
             n = max(0, self._size - self._pos)
         req = n
@@ -156,7 +158,17 @@ class VirtualFile(io.RawIOBase):
         return self._gen(off, max(0, min(n, self._size - off)))
 
     def close(self):
+        """Closing is effective, as with a real file: a reader that closes a handle its caller gave it breaks every other user of it."""
         self._note("close")
+        self._closed_by = True
+
+    def reopen(self):
+        """(harness) undo a close()"""
+        self._closed_by = False
+
+    def _check_open(self):
+        if getattr(self, "_closed_by", False):
+            raise ValueError("I/O operation on closed file (VirtualFile)")
 
     def fileno(self):
         self._note("fileno")
